@@ -26,7 +26,7 @@ func c02AlgebraSnippets() []string {
 			[]string{"0", "1", "7", "13", "128", "200", "254", "255"}, intOps},
 		{"uint32", []string{"0", "1", "2", "4", "8", "65536", "2147483648", "3", "7", "4294967295"},
 			[]string{"0", "1", "7", "13", "2147483647", "2147483648", "4294967295", "4294967288"}, intOps},
-		{"float64", []string{"0.0", "1.0", "2.0", "0.5", "4.0", "-1.0", "3.0", "1e308"},
+		{"float64", []string{"0.0", "1.0", "2.0", "0.5", "4.0", "-1.0", "3.0", "1e308", "0", "1", "2", "-1"},
 			[]string{"zero", "-zero", "1.0", "-1.0", "0.1", "-7.5", "1e308", "-1e308", "zero/zero", "1.0/zero", "-1.0/zero", "9007199254740993.0"}, []string{"+", "-", "*", "/", "==", "<", ">="}},
 	}
 	var out []string
@@ -44,7 +44,7 @@ func c02AlgebraSnippets() []string {
 				var sb strings.Builder
 				var names []string
 				for i, k := range t.ks {
-					if (op == "/" || op == "%") && form != 1 && (k == "0" || k == "0.0") && t.name != "float64" {
+					if (op == "/" || op == "%") && form != 1 && (k == "0" || k == "0.0") {
 						continue // a constant zero divisor is a compile error in Go
 					}
 					if (op == "<<" || op == ">>") && form != 1 && (strings.HasPrefix(k, "-") || len(k) > 2) {
